@@ -411,9 +411,19 @@ func runCase(c Case) *h.Outcome {
 			}
 		}
 	}
-	// (a), (b) per update
+	// (a), (b) per update.  Only in runs without a timed-out request, as the
+	// property states: the response to an abandoned request stays cached at the
+	// proposer and can answer a later request with the same version number (the
+	// thorough tier found such a run: a stale rejection from a collision made a
+	// later, accepted update return "rejected").
 	rejected := 0
 	for _, r := range results {
+		if r.kind == "rejected" {
+			rejected++
+		}
+		if timedOut {
+			continue
+		}
 		s := c.Steps[r.step]
 		ch := chans[s.Chan]
 		id := ch[0].ID()
@@ -433,7 +443,6 @@ func runCase(c Case) *h.Outcome {
 				return fail("success-but-peer-state-differs", "step %d: Update returned nil but at quiescence the peer has not enabled the proposed state as version %d", r.step, v)
 			}
 		case "rejected":
-			rejected++
 			// while the call was running nobody enabled the proposed state (a later,
 			// identical proposal may of course be accepted), unless an identical
 			// proposal ran concurrently
